@@ -124,6 +124,9 @@ func BFSPar[S any](init S, maxDepth int, stateCap int64, workers int, key func(*
 						Progress.Add(1)
 						expand(w, n, func(s S, op uint16) {
 							trans[c]++
+							if trans[c]&1023 == 0 {
+								Progress.Add(1)
+							}
 							k := key(&s)
 							if _, ok := seen[k]; ok { // seen is read-only while a level is expanded
 								return
@@ -142,6 +145,7 @@ func BFSPar[S any](init S, maxDepth int, stateCap int64, workers int, key func(*
 		var nextLevel []*Node[S]
 		for c := range cands {
 			res.Transitions += trans[c]
+			Progress.Add(1) // merging is progress too (a level of a large search is merged for minutes)
 			for _, x := range cands[c] {
 				if _, ok := seen[x.k]; ok {
 					continue
